@@ -126,5 +126,16 @@ PROPS['C16'] = Prop(
     outside='more than TT top-level triggers (TT+NB triggers separate n<=1, 2, ..., TT+NB, larger); several wrapped listeners at once; threads',
     assumptions=['Callback type is the default std::function (the removers wrap the listener in their own functor type); engine checks add/sub nsw, so signed overflow of the trigger count is a violation'])
 
+_AI = 'AnyId<Dig,%s>: three ids (%s) with fully symbolic 64-bit digests and 32-bit values of two value types; the digest is constrained only to be a function of the value (collisions allowed)'
+PROPS['C18'] = Prop(
+    quick=[Run('anyid_laws_storage', 'anyid.cpp', {'STORAGE': 1, 'MAPK': 0}, covers=3, bounds=_AI % ('value storage with == and <', 'laws')),
+           Run('anyid_laws_nostorage', 'anyid.cpp', {'STORAGE': 0, 'MAPK': 0}, covers=3, bounds=_AI % ('EmptyAnyStorage', 'laws')),
+           Run('anyid_map_storage', 'anyid.cpp', {'STORAGE': 1, 'MAPK': 1}, covers=5, optional_covers=(1, 2), bounds=_AI % ('value storage', 'std::map dispatcher: 3 registered ids, dispatch by a 4th')),
+           Run('anyid_hash_storage', 'anyid.cpp', {'STORAGE': 1, 'MAPK': 2}, covers=5, optional_covers=(1, 2), bounds=_AI % ('value storage', 'std::unordered_map dispatcher: 3 registered ids, dispatch by a 4th; digests restricted to 8 significant bits in this run')),
+           Run('anyid_map_nostorage', 'anyid.cpp', {'STORAGE': 0, 'MAPK': 1}, covers=5, optional_covers=(1, 2), bounds=_AI % ('EmptyAnyStorage', 'std::map dispatcher')),
+           Run('anyid_hash_nostorage', 'anyid.cpp', {'STORAGE': 0, 'MAPK': 2}, covers=5, optional_covers=(1, 2), bounds=_AI % ('EmptyAnyStorage', 'std::unordered_map dispatcher; digests restricted to 8 significant bits in this run'))],
+    outside='more than three ids in a law / four in a dispatcher; Storage types supporting only one of == and <; std::any storage',
+    assumptions=['Digester is a functional stub (arbitrary 64-bit digest per distinct value); unordered_map bucket growth is the model in support/stdsupport.cpp'])
+
 HOOK_COMMITS = []
 EBMC_PROPS = []
